@@ -10,7 +10,8 @@ def main(pid, argv):
     ck.rule = ("(a) translator: every access of every method of *Service and of ctxio.Conn to a receiver field, with the mutex state, regenerated from /repo's sources "
                "(harness/cmd/goaccess -> coq/gen/GenAccess.v) and checked against the lock discipline table_ok inside Coq; (b) dynamic: every single, pair and triple of "
                "{Shutdown, GetListener, RegisterInterface, Bind} concurrently with a running Listen and a running DoListen and 0-4 client connections (GetInfo, "
-               "GetInterfaceDescription, calls, cancelled calls), randomised start offsets, under the Go race detector; reports with frames in "
+               "GetInterfaceDescription, calls, cancelled calls), randomised start offsets, plus client scenarios with one goroutine per connection in which a cancelled call, a cancelled raw Read on an upgraded "
+               "connection (client side and handler side) is followed by further use of the same connection, all under the Go race detector; reports with frames in "
                "github.com/varlink/go/varlink are failing schedules. distinct = scenarios executed; non-trivial = all (each has a serving call and at least one concurrent operation)")
     ck.assumptions = ["the Go memory model is not formalised: race freedom under sequential consistency of the access protocol implies DRF, the standard argument",
                       "the race detector is a dynamic oracle; it only sees schedules that occur",
